@@ -17,4 +17,20 @@ def KOut.render (o : KOut) : String :=
 def KOut.written (o : KOut) (path : String) : Option Int :=
   (o.writes.find? (·.1 == path)).map (·.2)
 
+/-- error code of the first `m_msg_set_err` event (0 if none): since `m_msg_set_err` keeps the first
+    error, this is the code the kernel leaves in a message that had no error before -/
+def KOut.err (o : KOut) : Int :=
+  match o.events.find? (·.1 == "m_msg_set_err") with
+  | some (_, c :: _) => c
+  | _ => 0
+
+/-- final value of `path`: the value written, else the given old value -/
+def KOut.get (o : KOut) (path : String) (old : Int) : Int := (o.written path).getD old
+
+/-- number of calls to `name` (as an `Int`, so that `omega` can reason about it) -/
+def KOut.count (o : KOut) (name : String) : Int := ((o.events.filter (·.1 == name)).length : Nat)
+
+/-- does the kernel call `name`? -/
+def KOut.calls (o : KOut) (name : String) : Bool := o.events.any (·.1 == name)
+
 end Munge.C
